@@ -602,6 +602,25 @@ VariablesStack::popElementFrame()
             break;
         }
     }
+
+    // The parameters that were passed to the element are right below
+    // its frame, and its xsl:param children have activated the ones
+    // they name.  xsl:apply-templates keeps them on the stack for the
+    // template of its next node, which might have no xsl:param for them
+    // and must not see them, so deactivate them again.
+    for(VariableStackStackType::size_type i = m_stack.size(); i > 1; --i)
+    {
+        StackEntry&     theEntry = m_stack[i - 1];
+
+        if (theEntry.getType() == StackEntry::eActiveParam)
+        {
+            theEntry.deactivate();
+        }
+        else if (theEntry.getType() != StackEntry::eParam)
+        {
+            break;
+        }
+    }
 }
 
 
